@@ -8,7 +8,7 @@ MANIFEST_NOTES = ("Every check is `bin/vcheck <id> quick|thorough`; VERIF_SEED s
 CHECKS["C19"] = {
     "pkg": "./c19", "run": "^TestC19$", "level": "exploration",
     "technique": "runtime monitor: sorted-multiset reference model checked after every queue operation over seeded operation sequences",
-    "level_text": "Differential monitor of the real utils.PriorityQueue against a sorted-multiset model over tens of thousands (quick) to millions (thorough) of seeded operation sequences in which source and reversed queues are both kept in use; held means no divergence on any observed sequence. Every third case builds its first queue from 1-7 initial items handed to the constructor in arbitrary order.",
+    "level_text": "Differential monitor of the real utils.PriorityQueue against a sorted-multiset model over tens of thousands (quick) to millions (thorough) of seeded operation sequences in which source and reversed queues are both kept in use; held means no divergence on any observed sequence. Every third case builds its first queue from 1-7 initial items handed to the constructor in arbitrary order. Every fourth tie-rich case draws priorities from the edges of the non-negative floats (negative zero, zero, the smallest subnormal, one, the largest finite value).",
     "level_note": "Sampled sequences only (sizes up to ~400 items); container/heap trusted; single goroutine (the queue is not meant to be shared).",
     "shards": {"quick": 4, "thorough": 16},
     "timeout": {"quick": 300, "thorough": 1800},
@@ -22,7 +22,7 @@ CHECKS["C19"] = {
 CHECKS["C01"] = {
     "pkg": "./c01", "run": "^TestC01", "level": "exploration", "mem_gb": {"quick": 0, "thorough": 0},
     "technique": "runtime monitor: reference map id->(vector,metadata) checked against every Search result over seeded insert/remove/update/snapshot histories",
-    "level_text": "Reference-model monitor over thousands (quick) to hundreds of thousands (thorough) of seeded histories with generated index parameters; every Search result is checked for liveness, metadata, bit-exact score, order, uniqueness, size and non-emptiness. Held means no observed result violated the property. The dataset-level part (4 quick / 32 thorough clusters) issues single and batch inserts, updates and removes through any node and runs the same oracle on Dataset.Search; a round whose replicas are at rest without reaching the reference state is judged by the oracle (what a search returns then is stale or lost data).",
+    "level_text": "Reference-model monitor over thousands (quick) to hundreds of thousands (thorough) of seeded histories with generated index parameters; every Search result is checked for liveness, metadata, bit-exact score, order, uniqueness, size and non-emptiness. Held means no observed result violated the property. The dataset-level part (4 quick / 32 thorough clusters) issues single and batch inserts, updates and removes through any node and runs the same oracle on Dataset.Search; a round whose replicas are at rest without reaching the reference state is judged by the oracle (what a search returns then is stale or lost data). Every second save-and-load loads into an index that already holds other items, and snapshots of an empty index are taken too.",
     "level_note": "Sequential histories on one index, plus a smaller number of write histories through the Dataset API of in-process clusters (1..3 nodes, replicas quiescent before each search round) judged by the same oracle; concurrency is C13, exactness of the dataset merge is C09; NaN-producing inputs excluded (C12); the index dump hook is used only to classify failures.",
     "shards": {"quick": 8, "thorough": 16},
     "timeout": {"quick": 600, "thorough": 3000},
@@ -70,20 +70,20 @@ CHECKS["C02"] = {
 CHECKS["C04"] = {
     "pkg": "./c04", "run": "^TestC04$", "level": "exploration",
     "technique": "runtime monitor: content equality and per-entry outcome equality of real partition state machines fed byte-identical logs, with snapshot/restore at every cut point",
-    "level_text": "Differential monitor on the real partition apply/snapshot/restore code: replicas fed byte-identical entries are compared on contents and per-entry outcomes with each other and with a sequential map, for apply-all and for snapshot-at-cut + restore (into a fresh replica, into a used/diverged replica, twice) + replay of the rest. For logs of up to 40 entries every cut point 0..len is taken (exhaustive over cuts per log).",
+    "level_text": "Differential monitor on the real partition apply/snapshot/restore code: replicas fed byte-identical entries are compared on contents and per-entry outcomes with each other and with a sequential map, for apply-all and for snapshot-at-cut + restore (into a fresh replica, into a used/diverged replica, twice) + replay of the rest. For logs of up to 40 entries every cut point 0..len is taken (exhaustive over cuts per log). Every earlier snapshot of the incremental replica is restored again after all later ones were taken (the bytes handed out are kept by the log store and by messages to lagging followers).",
     "level_note": "Logs are sampled; cuts are exhaustive only for logs <= 40 entries (16 sampled cuts for the long logs); graph shape, levels and links are deliberately not compared (legitimately non-deterministic).",
     "shards": {"quick": 8, "thorough": 16},
     "timeout": {"quick": 600, "thorough": 3000},
     "exhaustive": "cut points 0..len for every log of <= 40 entries",
     "rule": "case c = log of 5..40 entries (thorough also 200..2000) of all six change kinds over a small id universe with arbitrary metadata; every cut point x {fresh, used, restore-twice} targets; non-trivial = >=3 change kinds in the log and >=3 cuts checked; distinct = digest of the log",
     "assumptions": ["a replica's outcome is observed through its own notificator under the entry's notification id"],
-    "min": {"any": {"restores_checked": 5000, "cuts_on_empty_index": 20}},
+    "min": {"any": {"earlier_snapshots_restored_late": 1000, "restores_checked": 5000, "cuts_on_empty_index": 20}},
 }
 
 CHECKS["C06"] = {
     "pkg": "./c06", "run": "^TestC06$", "level": "exploration",
     "technique": "runtime monitor: differential execution of storage/wal badgerWAL against etcd/raft MemoryStorage after every call, with reopen and several groups in one database",
-    "level_text": "Differential monitor: seeded legal call sequences (appends incl. conflicting overwrites, hard states, received snapshots inside and beyond the log with and without trailing entries, local snapshot+compaction, reopen with cold cache or closed database, DeleteGroup + re-create, 1-4 groups interleaved incl. uuid.Nil and adjacent ids) are applied to the Badger store and to MemoryStorage; after every call FirstIndex, LastIndex, Term over [first-2,last+2], Entries under several size limits, Snapshot and InitialState are compared, for the acted-on group and for the others.",
+    "level_text": "Differential monitor: seeded legal call sequences (appends incl. conflicting overwrites, hard states, received snapshots inside and beyond the log with and without trailing entries, local snapshot+compaction, reopen with cold cache or closed database, DeleteGroup + re-create, 1-4 groups interleaved incl. uuid.Nil and adjacent ids) are applied to the Badger store and to MemoryStorage; after every call FirstIndex, LastIndex, Term over [first-2,last+2], Entries under several size limits, Snapshot and InitialState are compared, for the acted-on group and for the others. After every second DeleteGroup the same store object goes on being used; one case in eighty appends batches of more than 8000 entries and compacts nearly all of them at once; every history ends with a reopen of every group and one more comparison.",
     "level_note": "Only call sequences raft may legally issue; Badger itself is trusted (SyncWrites off in the harness, process-crash durability is C03).",
     "shards": {"quick": 8, "thorough": 16},
     "timeout": {"quick": 600, "thorough": 3000},
@@ -108,14 +108,14 @@ CHECKS["C15"] = {
 CHECKS["C16"] = {
     "pkg": "./c16", "run": "^TestC16$", "level": "exploration",
     "technique": "runtime monitor: structural check of every placement proposed by the real DatasetManager.Create/Allocator over a scripted raft.Group, plus fixed-threshold independence and spread statistics",
-    "level_text": "Monitor on the real Create path (allocator + cluster connection) with a scripted raft group that captures the proposal bytes: for every N in 1..16 x R in 1..8 x P in {1,2,3,8,64} (all 640 configurations, 30 creates each quick / 400 thorough) each partition must get exactly min(R,N) distinct member nodes; independence is decided with fixed thresholds (an all-identical placement where its probability is <= 1e-12; pair-coincidence rate and per-node load inside Hoeffding bands with delta = 1e-10). After the static matrix every configuration goes through a membership history (24 quick / 120 thorough steps: removals of nodes that were dialled before and of nodes that never were, joins), with creates for R in {1,3,8} after every step: each placement must use exactly min(R, N) distinct nodes that are members at that moment.",
+    "level_text": "Monitor on the real Create path (allocator + cluster connection) with a scripted raft group that captures the proposal bytes: for every N in 1..16 x R in 1..8 x P in {1,2,3,8,64} (all 640 configurations, 30 creates each quick / 400 thorough) each partition must get exactly min(R,N) distinct member nodes; independence is decided with fixed thresholds (an all-identical placement where its probability is <= 1e-12; pair-coincidence rate and per-node load inside Hoeffding bands with delta = 1e-10). After the static matrix every configuration goes through a membership history (24 quick / 120 thorough steps: removals of nodes that were dialled before and of nodes that never were, joins), with creates for R in {1,3,8} after every step: each placement must use exactly min(R, N) distinct nodes that are members at that moment. A further family commits and applies every create before the next one is placed (200 quick / 1200 thorough creates for 3 shapes per N, over a real log store, local node not a member): pair coincidence, all-identical placements and a create repeating the previous placement are tested with the same fixed thresholds.",
     "level_note": "The configurations are enumerated exhaustively within the stated ranges; random seeds of the shuffle are sampled (global math/rand seeded from VERIF_SEED); statistical tests have a per-run false-alarm probability below 1e-7.",
     "shards": {"quick": 8, "thorough": 16},
     "timeout": {"quick": 300, "thorough": 1800},
     "exhaustive": "N 1..16 x R 1..8 x P in {1,2,3,8,64}",
     "rule": "case = configuration (N,R,P); T creates per configuration, every partition of every create checked structurally; distinct = (N,R,P); all non-trivial",
     "assumptions": ["placement is what the create-dataset proposal carries (bytes captured at raft.Group.Propose)"],
-    "min": {"any": {"creates_checked": 10000, "independence_tests": 300}},
+    "min": {"any": {"applied_creates_checked": 1000, "creates_checked": 10000, "independence_tests": 300}},
 }
 
 CHECKS["C13"] = {
@@ -136,33 +136,33 @@ CHECKS["C17"] = {
     "mem_gb": {"quick": 0, "thorough": 0},
     "pkg": "./c17", "run": "^TestC17$", "level": "exploration",
     "technique": "runtime monitor on an in-process cluster of real servers: Dataset.SizeInfo on every node vs the sum of harness-known partition sizes, with injected PartitionInfo failures and hangs (gRPC interceptors)",
-    "level_text": "Monitor on real anndb.Server clusters in one process (real raft, real gRPC between nodes): seeded topologies of 1..4 nodes, 1..8 partitions with pairwise distinct sizes, replication 1..3; SizeInfo is called repeatedly on every node (all-local, one-remote, several-remote placements) and must equal the sums of the per-partition sizes; then every needed remote lookup is made to fail or hang and the call must fail.",
+    "level_text": "Monitor on real anndb.Server clusters in one process (real raft, real gRPC between nodes): seeded topologies of 1..4 nodes, 1..8 partitions with pairwise distinct sizes, replication 1..3; SizeInfo is called repeatedly on every node (all-local, one-remote, several-remote placements) and must equal the sums of the per-partition sizes; then every needed remote lookup is made to fail or hang and the call must fail. Finally a node that holds replicas is removed from the membership after the others have asked it before (their client connections to it are closed): every SizeInfo afterwards fails or reports the full sums.",
     "level_note": "Topologies and completion orders are sampled (goroutine scheduling is not controlled beyond repetition); truth per partition is what a hosting node's PartitionInfo reports while quiescent; nodes that do not hold a partition are asked too and must fail or answer that true size (the serving half of a remote lookup; a caller with a lagging placement view would add the answer to its sum).",
     "shards": {"quick": 5, "thorough": 12},
     "timeout": {"quick": 900, "thorough": 3400},
     "rule": "case c = topology (nodes, partitions, replication) with distinct partition sizes; 5 SizeInfo calls per node plus 2 fault modes per node with remote partitions; non-trivial = >=2 partitions; distinct = digest of (topology, sizes, placement)",
     "assumptions": ["in-process servers with accelerated raft ticks behave like separate processes for the data plane"],
-    "min": {"any": {"sizeinfo_calls_checked": 50, "lookups_served_by_non_hosting_nodes_checked": 5}},
+    "min": {"any": {"sizeinfo_calls_after_a_node_left": 8, "sizeinfo_calls_checked": 50, "lookups_served_by_non_hosting_nodes_checked": 5}},
 }
 
 CHECKS["C09"] = {
     "mem_gb": {"quick": 0, "thorough": 0},
     "pkg": "./c09", "run": "^TestC09$", "level": "exploration",
     "technique": "runtime monitor on an in-process cluster of real servers: Dataset.Search vs exact top-k of the harness copy, intercepted SearchPartitions RPCs attributed by unique query, injected delays / errors / node-down / short deadlines, and concurrent stress",
-    "level_text": "Monitor on real anndb.Server clusters in one process: seeded topologies (1..4 nodes, 1..8 partitions of <=20 insert-only items so that each partition's own answer is exact, replication 1..3); every Search must return exactly the top-k of all items (bitwise score sequence) or an error, the SearchPartitions RPCs seen by the interceptors must cover every partition exactly once, a consulted node that fails / is down / answers after the deadline must make the call fail, and 2 x 720 concurrent searches (GOMAXPROCS 2 and 16) exercise the collector/closer interleaving.",
+    "level_text": "Monitor on real anndb.Server clusters in one process: seeded topologies (1..4 nodes, 1..8 partitions of <=20 insert-only items so that each partition's own answer is exact, replication 1..3); every Search must return exactly the top-k of all items (bitwise score sequence) or an error, the SearchPartitions RPCs seen by the interceptors must cover every partition exactly once, a consulted node that fails / is down / answers after the deadline must make the call fail, and 2 x 720 concurrent searches (GOMAXPROCS 2 and 16) exercise the collector/closer interleaving. Phase 2b (240 quick / 1200 thorough searches per multi-node cluster): the victim's failure is gated on the completion of another node's handler for the same query, so that it lands while the collector is busy. Phase 4: a node that holds replicas is removed from the membership; every search through the remaining nodes fails or is exact.",
     "level_note": "Completion orders are produced by injected delays and concurrency, not enumerated; exactness of a partition's own answer relies on the small-collection bound checked by C07.",
     "shards": {"quick": 5, "thorough": 12},
     "timeout": {"quick": 900, "thorough": 3400},
     "rule": "case c = topology + seeded items; 40 sequential searches with per-node delays, 12 fault searches, 1440 stress searches, k in {1,5,n,n+3}; non-trivial = >=50 searches checked against the exact top-k; distinct = digest of (topology, items per partition)",
     "assumptions": ["queries are unique in their first coordinate, which attributes intercepted RPCs to a search"],
-    "min": {"any": {"searches_checked": 2000}},
+    "min": {"any": {"late_failure_searches_hitting_victim": 100, "searches_after_a_node_left": 10, "searches_checked": 2000}},
 }
 
 CHECKS["C10"] = {
     "mem_gb": {"quick": 0, "thorough": 0},
     "pkg": "./c10", "run": "^TestC10$", "level": "exploration",
     "technique": "runtime monitor: routing function evaluated over ids x every modulus 1..1024 (range, repeatability, equality across fresh processes) + placement observed on an in-process cluster after writes through every entry node and API path",
-    "level_text": "Pure part: 20k (quick) / 200k (thorough) ids (random, all-zero, all-ones, every single bit, halves swapped) x every n in 1..1024: result in range, identical on repeated and concurrent evaluation, identical table digest in two fresh processes. System part: real 3-node clusters with 1/2/5/8 partitions and replication 1-2; each id is written through every entry node and insert path, updated from a second node and removed from a third through single and batch paths, and after each step exactly the replicas of partition route(id, n) hold it and no other partition does. Batches of 8-24 full-entropy ids spanning partitions are inserted, updated and removed, each step through a different node, and every id must be held by its owner only.",
+    "level_text": "Pure part: 20k (quick) / 200k (thorough) ids (random, all-zero, all-ones, every single bit, halves swapped) x every n in 1..1024: result in range, identical on repeated and concurrent evaluation, identical table digest in two fresh processes. System part: real 3-node clusters with 1/2/5/8 partitions and replication 1-2; each id is written through every entry node and insert path, updated from a second node and removed from a third through single and batch paths, and after each step exactly the replicas of partition route(id, n) hold it and no other partition does. Batches of 8-24 full-entropy ids spanning partitions are inserted, updated and removed, each step through a different node, and every id must be held by its owner only. Size queries and searches are issued on every node between the write phases (and before the first write in every second case).",
     "level_note": "Ids are sampled; the moduli 1..1024 are enumerated completely; the system part samples topologies (replica choice for proxied writes is random inside the code under test).",
     "shards": {"quick": 5, "thorough": 12},
     "timeout": {"quick": 900, "thorough": 3400},
@@ -176,75 +176,75 @@ CHECKS["C11"] = {
     "mem_gb": {"quick": 0, "thorough": 0},
     "pkg": "./c11", "run": "^TestC11$", "level": "exploration",
     "technique": "runtime monitor on an in-process cluster: acknowledged writes vs owner-partition contents, raft-log growth on rejected writes (RecWAL), batch error maps vs a model, and caller outcomes under a forced apply-before-wait schedule (pause point) and concurrent callers",
-    "level_text": "Monitor on real clusters of 1..3 nodes: (a) every acknowledged insert is on a replica of the owner immediately and on all at quiescence; (c) dimension mismatches are rejected and no partition raft log grows (durable view of the WAL wrapper); (d) batches mixing present, absent and wrong-dimension items return exactly the model's error map and apply the rest; (e) callers are held at the pause point between Propose and the wait until their own entry has been applied and must still get their own outcome, then 24 concurrent callers run insert/duplicate/update/remove/absent sequences whose outcomes are all distinguishable.",
+    "level_text": "Monitor on real clusters of 1..3 nodes: (a) every acknowledged insert is on a replica of the owner immediately and on all at quiescence; (c) dimension mismatches are rejected and no partition raft log grows (durable view of the WAL wrapper); (d) batches mixing present, absent and wrong-dimension items return exactly the model's error map and apply the rest; (e) callers are held at the pause point between Propose and the wait until their own entry has been applied and must still get their own outcome, then 24 concurrent callers run insert/duplicate/update/remove/absent sequences whose outcomes are all distinguishable. Every caller also runs five batch steps on ids of its own whose error maps are pairwise distinguishable; and 24 callers per single-replica cluster leave on their own deadline at the pause point while their outcome is already buffered, after which the next write on the partition must get its own outcome.",
     "level_note": "(b) unreachable owner is produced through the public API (the only hosting node is removed from the cluster, so the entry node forgets its address while the partition still lists it); interleavings beyond the forced one are whatever concurrency produced.",
     "shards": {"quick": 5, "thorough": 12},
     "timeout": {"quick": 900, "thorough": 3400},
     "rule": "case c = topology (1..3 nodes, 1..4 partitions, replication 1..2); 12 acks, 6 dimension cases, 6 batch maps, forced and concurrent caller sequences; all non-trivial; distinct = digest of the topology",
     "assumptions": ["error identity across the gRPC proxy is compared on the message text"],
-    "min": {"any": {"acks_checked": 30, "caller_outcomes_checked": 500, "batch_maps_checked": 10, "unreachable_owner_writes": 3, "no_quorum_writes": 4}},
+    "min": {"any": {"caller_batch_outcomes_checked": 100, "acks_checked": 30, "caller_outcomes_checked": 500, "batch_maps_checked": 10, "unreachable_owner_writes": 3, "no_quorum_writes": 4}},
 }
 
 CHECKS["C03"] = {
     "mem_gb": {"quick": 0, "thorough": 0},
     "pkg": "./c03", "run": "^TestC03", "level": "fault_enumeration",
     "aux": [{"pkg": "github.com/marekgalovic/anndb/cmd/anndb", "name": "anndb", "env": "VERIF_ANNDB_BIN", "tags": "verif"}],
-    "technique": "runtime monitor with fault enumeration: crash armed at every durable-write boundary (before/after each Save / snapshot install / CreateSnapshot of the raft log stores) of a seeded workload on in-process real servers, restart on the same data directory, recovered partition contents vs acknowledged-history oracle",
-    "level_text": "A pilot run of the seeded workload (4 sequential per-id clients, single and batch insert/update/remove with unique version tags, forced snapshot+compaction of the partition and zero groups) counts the durable writes K of the victim node; the workload is then re-run once for every k in 1..K and both sides with a crash armed there (1 node / 1 replica: all boundaries; 3 nodes / 3 replicas with a minority crash while clients continue: 20 sampled boundaries quick, all thorough). After restart the recovered contents of every replica must be the acknowledged state of every id or that plus the one open operation, with nothing never submitted; the workload then continues and is compared again.",
+    "technique": "runtime monitor with fault enumeration: crash armed at every durable-write boundary (before/after each Save / snapshot install / CreateSnapshot of the raft log stores) of a seeded workload on in-process real servers, restart on the same data directory, recovered partition contents vs acknowledged-history oracle Also on real cmd/anndb processes killed with SIGKILL (from outside at a seeded moment of the write storm, or by themselves at the k-th hit of a ready-loop point) and restarted, contents read through a state dump; and a two-fault family (third replica lags, second replica crashes at the write that stores the entry, then the leader crashes).",
+    "level_text": "A pilot run of the seeded workload (4 sequential per-id clients, single and batch insert/update/remove with unique version tags, forced snapshot+compaction of the partition and zero groups) counts the durable writes K of the victim node; the workload is then re-run once for every k in 1..K and both sides with a crash armed there (1 node / 1 replica: all boundaries; 3 nodes / 3 replicas with a minority crash while clients continue: 20 sampled boundaries quick, all thorough). After restart the recovered contents of every replica must be the acknowledged state of every id or that plus the one open operation, with nothing never submitted; the workload then continues and is compared again. Real-process part: 24 quick / 400 thorough cases of 1 node / 1 replica and 3 nodes / 3 replicas built from the working tree with the verif tag, killed with SIGKILL (nothing is flushed or closed on the way down, unlike the in-process teardown) at ready-loop points of the partition or membership group (weighted towards the log write, with snapshot+compaction forced every 2-7 applied entries in two thirds of the cases) or after a seeded number of acknowledged writes, restarted with the same command line or with -join false; the replicas must become level and every replica's contents must be the acknowledged state of every id or that plus its one open operation, then the workload continues and is compared again. Quorum-of-two family (6 quick / 60 thorough): appends do not reach the third replica, the second crashes before/after the durable write that stores the entry and restarts, then the leader crashes; the leader the two remaining replicas elect must hold every acknowledged write.",
     "level_note": "Process-crash model: the crashing node's ready-loops end at the armed boundary (other groups of the node at their next event), nothing is written afterwards, Badger is then closed and reopened; power loss / torn writes inside Badger are not modelled. Goroutine interleaving varies between the pilot and the armed runs, so a boundary index may denote a different write; the evidence lists the distinct boundary kinds actually hit.",
     "shards": {"quick": 8, "thorough": 16},
     "timeout": {"quick": 900, "thorough": 3400},
     "exhaustive": "durable-write boundaries 1..K x {before, after} of the pilot workload on the 1-node topology",
     "rule": "case = (seed, topology, boundary k, side); non-trivial = the armed crash point was reached and fired; distinct = digest of the case description",
     "assumptions": ["an in-process crash (ready-loops ended, no further writes, Badger closed and reopened) is a legal process-crash schedule", "acknowledged = call returned success before the crash flag was set, decided under one mutex"],
-    "min": {"any": {"crashes": 20, "recovered_states_checked": 20}},
+    "min": {"any": {"proc_crashes": 8, "proc_recovered_states_checked": 16, "quorum_of_two_histories": 2, "crashes": 20, "recovered_states_checked": 20}},
 }
 
 CHECKS["C20"] = {
     "pkg": "./c20", "run": "^TestC20$", "level": "fault_enumeration",
     "mem_gb": {"quick": 0, "thorough": 0},
     "technique": "runtime monitor on an in-process cluster of real servers (real gRPC raft transport): address-book equality on every live member after a logical marker, after joins (sequential and concurrent), removals, forced compaction of the membership log and restart of any member; a removed node re-joining (through a lagging member; under its old id followed by a later join and a member's restart); a removal while another member is down, with and without compaction",
-    "level_text": "Monitor on real clusters of 2..5 nodes: after every acknowledged join / removal a marker catalogue entry is proposed and, once every live member has applied it, each member's Conn.Nodes() must equal the acknowledged membership with the announced addresses; the same after restarting a member (bootstrap node or joiner), with and without the zero group's log having been compacted into a snapshot first.",
+    "level_text": "Monitor on real clusters of 2..5 nodes: after every acknowledged join / removal a marker catalogue entry is proposed and, once every live member has applied it, each member's Conn.Nodes() must equal the acknowledged membership with the announced addresses; the same after restarting a member (bootstrap node or joiner), with and without the zero group's log having been compacted into a snapshot first. A fourth extra family (3 quick / 24 thorough): node 2 holds node 4's committed join unapplied while node 3, which has applied it, restarts or repeats its join handshake through node 2. A member that has applied the membership log up to the commit index at which every change had been acknowledged and still lists something else is a violation whether or not its log still moves.",
     "level_note": "Fault sequences are a fixed seeded family (sequential vs concurrent joins x removal x compaction x which member restarts), not message-level faults; quiescence is logical (marker applied), the wall-clock watchdog only yields inconclusive.",
     "shards": {"quick": 8, "thorough": 16},
     "timeout": {"quick": 900, "thorough": 3400},
     "rule": "case c = (nodes 2..5, concurrent joins?, removal?, compaction before restart?, restarted member); non-trivial = all phases ran to the final comparison; distinct = digest of the case description. Three more families of 3 (quick) / 24 (thorough) cases each: re-join through a member that holds the removal unapplied; removal + shutdown + re-join under the old id, then node 4 joins and a member that stayed restarts (datasets with 3 replicas exist, so partition groups log the removal too); removal of a node while another member is down, [compaction], the member returns. In the last two a view that does not converge is a violation only if the lagging member's membership log has not moved during a second 20 s window",
     "assumptions": ["a marker entry applied on a member implies every earlier membership entry was applied there (single log order)"],
-    "min": {"any": {"books_checked": 20, "rejoin_then_later_join_histories": 1, "removal_while_member_down_histories": 1}},
+    "min": {"any": {"rejoin_through_member_behind_on_a_join_histories": 1, "books_checked": 20, "rejoin_then_later_join_histories": 1, "removal_while_member_down_histories": 1}},
 }
 
 CHECKS["C14"] = {
     "pkg": "./c14", "run": "^TestC14", "level": "fault_enumeration",
     "aux": [{"pkg": "github.com/marekgalovic/anndb/cmd/anndb", "name": "anndb", "env": "VERIF_ANNDB_BIN", "tags": "verif"}],
     "mem_gb": {"quick": 0, "thorough": 0},
-    "technique": "runtime monitor on an in-process cluster of real servers: catalogue equality (id, dimension, metric, partition ids in order, replica assignment) of every live node vs the acknowledged model after a logical marker, across create/delete sequences, forced catalogue-log compaction, restarts, and a node catching up by snapshot; plus a replica-set family: agreement of the replica assignment across members, and of what each member lists with what it routes by, after node 3 is added to under-replicated partitions and removed again, across compaction, restart and catch-up by snapshot",
-    "level_text": "Monitor on real clusters of 1..3 nodes with real start-up wiring: seeded sequences of create / delete / compaction / restart / node-down-while-the-catalogue-changes-and-the-others-compact; after each restart or catch-up and at the end (and again after restarting every node) each live node's List must equal the acknowledged catalogue exactly, deleted datasets must not be listed and no raft group of their partitions may still run on any node.",
+    "technique": "runtime monitor on an in-process cluster of real servers: catalogue equality (id, dimension, metric, partition ids in order, replica assignment) of every live node vs the acknowledged model after a logical marker, across create/delete sequences, forced catalogue-log compaction, restarts, and a node catching up by snapshot; plus a replica-set family: agreement of the replica assignment across members, and of what each member lists with what it routes by, after node 3 is added to under-replicated partitions and removed again, across compaction, restart and catch-up by snapshot Also on real cmd/anndb processes killed with SIGKILL in the middle of catalogue writes at ready-loop points of the membership-and-catalogue group; and a family in which a member falls behind without going down, is caught up by snapshot, snapshots again and restarts.",
+    "level_text": "Monitor on real clusters of 1..3 nodes with real start-up wiring: seeded sequences of create / delete / compaction / restart / node-down-while-the-catalogue-changes-and-the-others-compact; after each restart or catch-up and at the end (and again after restarting every node) each live node's List must equal the acknowledged catalogue exactly, deleted datasets must not be listed and no raft group of their partitions may still run on any node. Real-process part (48 quick / 600 thorough cases): 12 create/delete operations through a surviving node while the victim is killed with SIGKILL at the k-th hit of a zero-group ready-loop point (weighted towards the log write; the loop that reached the point may be held 10 ms so that replies on their way out leave) or between two operations; after the restart and a marker every node's List must contain every acknowledged creation unchanged, no acknowledged deletion, nothing unknown, and all nodes must agree. Cut-off member family (4 quick / 40 thorough): a member takes a snapshot, is cut off while the catalogue changes and the others compact, is caught up by the leader's snapshot, applies a leader change's empty entry, snapshots again and restarts; its List is compared before any marker.",
     "level_note": "Sequences are sampled from a fixed seeded family; crash = in-process teardown at step boundaries (mid-write crash points are C03's); replica-set changes are the allocator's own (node 3 joins while datasets want 3 replicas on 2 members, node 3 is removed); which partitions change depends on the allocator (only a partition's first replica may change it), so where a particular outcome cannot be expected the verdict is agreement (across members at rest; listed vs in effect on one member), and an allocator change that never arrives is inconclusive.",
     "shards": {"quick": 8, "thorough": 16},
     "timeout": {"quick": 900, "thorough": 3400},
     "rule": "case c = 1..3 nodes + 6..11 steps of create/delete/compaction/restart/lagging-node; non-trivial = at least one deletion acknowledged; distinct = digest of the step list. Replica-set family (4 quick / 40 thorough cases): 2..4 datasets (replication 3 or 1..2) on 2 members, node 3 joins, [compaction] restart of a member, [node 2 down] node 3 removed, [compaction, node 2 back], restart of every member",
     "assumptions": ["a marker dataset visible on a node implies every earlier catalogue entry was applied there"],
-    "min": {"any": {"catalogues_compared": 20, "replica_assignments_compared": 6, "replica_set_changes_observed": 2}},
+    "min": {"any": {"proc_catalogues_compared": 16, "cut_off_member_histories": 1, "catalogues_compared": 20, "replica_assignments_compared": 6, "replica_set_changes_observed": 2}},
 }
 
 CHECKS["C05"] = {
     "pkg": "./c05", "run": "^TestC05$", "level": "fault_enumeration",
     "mem_gb": {"quick": 0, "thorough": 0},
     "technique": "online trace monitors (apply agreement, in-order apply, durable-before-send, restart monotonicity and exact equality of the log a replica resumes from with the log its previous incarnation made durable, one leader per term, no fatal, bounded convergence) over every raft message (SimNet shim), every durable write (WAL wrapper) and every applied entry of in-process real servers under seeded loss/delay/duplication/partition/crash-restart schedules",
-    "level_text": "Real servers in one process with all raft traffic routed through a recording network shim and all log stores wrapped: seeded schedules of 6-10 phases (drop 0-30%, duplication, delays up to 80 ms against 50-100 ms election timeouts, minority and one-way partitions, immediate crashes and crashes armed at the k-th durable write, restarts) run against groups of 1, 3 and 5 replicas plus the zero group while 5 sequential clients write. Seven monitors judge every message against the sender's durable view at the instant it leaves, every applied entry, every Save and every restart; after faults stop all replicas must converge within 600 election timeouts of virtual ticks and hold exactly the acknowledged history.",
+    "level_text": "Real servers in one process with all raft traffic routed through a recording network shim and all log stores wrapped: seeded schedules of 6-10 phases (drop 0-30%, duplication, delays up to 80 ms against 50-100 ms election timeouts, minority and one-way partitions, immediate crashes and crashes armed at the k-th durable write, restarts) run against groups of 1, 3 and 5 replicas plus the zero group while 5 sequential clients write. Seven monitors judge every message against the sender's durable view at the instant it leaves, every applied entry, every Save and every restart; after faults stop all replicas must converge within 600 election timeouts of virtual ticks and hold exactly the acknowledged history. Every second scenario has a slow disk (one durable write in eight takes 1-15 ms), every third phase has sends that fail loudly, and every scenario with three or more replicas ends its fault phases with a forced history: one replica is cut off, the others compact, it returns with its ready-loop held up 40 ms per Ready over a link that fails half of the sends while the leader's loop is slow too.",
     "level_note": "etcd/raft itself is trusted; schedules are sampled (only the crash boundary index is a systematic dimension); goroutine scheduling is not replayable, the witness is the recorded event tail.",
     "shards": {"quick": 8, "thorough": 16},
     "timeout": {"quick": 900, "thorough": 3400},
     "rule": "case c = group size (1,3,5) + seeded fault script; non-trivial = more than 200 raft messages checked; distinct = digest of (topology, script)",
     "assumptions": ["the sender's durable view is read on the sender's goroutine when the message leaves", "a crash ends the node's ready-loops at an event boundary; nothing is persisted afterwards"],
-    "min": {"any": {"raft_messages_checked": 5000, "restarts": 3, "replica_contents_checked": 10}},
+    "min": {"any": {"forced_catch_up_by_snapshot_phases": 4, "raft_messages_checked": 5000, "restarts": 3, "replica_contents_checked": 10}},
 }
 
 CHECKS["C18"] = {
     "pkg": "./c18", "run": "^TestC18$", "level": "exploration",
     "mem_gb": {"quick": 0, "thorough": 0},
     "technique": "runtime monitor: bounded progress of catalogue/membership calls on in-process real servers under join/remove/re-join bursts interleaved with create/delete, a restart replay, and membership churn behind a node-change handler that can never finish; a structural wait-for-cycle detector over goroutine dumps (same goroutines parked in the cycle for more than a minute) is the deciding criterion on a stall",
-    "level_text": "Real 3- and 4-node clusters in one process. Family A: under-replicated datasets are created (so the allocator itself proposes catalogue changes), then node 3 joins, is removed and re-joins 2-4 times while datasets are created and deleted concurrently from both other nodes, with scheduling noise at the allocator's lock/hand-over points; then a node with existing datasets is restarted (replay burst) and must answer List and apply a marker. Family B (one case in twelve): a replica that leads a two-replica partition group dies and is removed from the cluster, so the surviving replica's node-change handler waits for a leader that cannot be elected; node 4 then joins and leaves 6-8 times (12-16 notifications, more than the notification channel held) and a catalogue entry created afterwards must be applied on both live members. Family C (one case in twelve): the address book's notification contract on its own - 400 (quick) / 3000 (thorough) seeded scripts of change bursts and single subscriber steps around the channel's capacity; a membership call parked in a channel send below the notification code while the subscriber is stalled is a violation, and every change must be delivered exactly once, in order. A stall in A/B is a violation only if the goroutine dumps show one of the control plane's lock-and-channel wait-for cycles with every goroutine of the cycle parked in one uninterrupted wait for more than a minute (longer than every bounded wait of the control plane), or a ready-loop goroutine parked that long inside an apply callback; any other stall is inconclusive.",
+    "level_text": "Real 3- and 4-node clusters in one process. Family A: under-replicated datasets are created (so the allocator itself proposes catalogue changes), then node 3 joins, is removed and re-joins 2-4 times while datasets are created and deleted concurrently from both other nodes, with scheduling noise at the allocator's lock/hand-over points; then a node with existing datasets is restarted (replay burst) and must answer List and apply a marker. Family B (one case in twelve): a replica that leads a two-replica partition group dies and is removed from the cluster, so the surviving replica's node-change handler waits for a leader that cannot be elected; node 4 then joins and leaves 6-8 times (12-16 notifications, more than the notification channel held) and a catalogue entry created afterwards must be applied on both live members. Family C (one case in twelve): the address book's notification contract on its own - 400 (quick) / 3000 (thorough) seeded scripts of change bursts and single subscriber steps around the channel's capacity; a membership call parked in a channel send below the notification code while the subscriber is stalled is a violation, and every change must be delivered exactly once, in order. A stall in A/B is a violation only if the goroutine dumps show one of the control plane's lock-and-channel wait-for cycles with every goroutine of the cycle parked in one uninterrupted wait for more than a minute (longer than every bounded wait of the control plane), or a ready-loop goroutine parked that long inside an apply callback; any other stall is inconclusive. In family A a dial that has taken the connection lock is held (yield points in cluster.Conn) until a membership change has taken the address lock, up to 40 ms; family B also deletes the dataset whose partition group has no leader. Besides the named cycles, a control-plane goroutine (innermost repository frame in cluster, storage or storage/raft) that has waited for a mutex for more than a minute is a wedge.",
     "level_note": "Interleavings are sampled, not enumerated; wall clock only triggers the dump analysis, the verdict is structural. Cycles are recognised by frame names of the allocator, catalogue and address-book code; a wedge of a different shape is reported as inconclusive, not as a violation.",
     "shards": {"quick": 6, "thorough": 16},
     "timeout": {"quick": 1200, "thorough": 3400},
@@ -258,7 +258,7 @@ CHECKS["C12"] = {
     "mem_gb": {"quick": 0, "thorough": 0},
     "aux": [{"pkg": "github.com/marekgalovic/anndb/cmd/anndb", "name": "anndb", "env": "VERIF_ANNDB_BIN", "tags": "verif"}],
     "technique": "runtime monitor on real cmd/anndb processes: liveness (process alive, List answers, valid requests served) after every hostile request class, and again after kill -9 + restart on the same data directory (log replay)",
-    "level_text": "Every request class (malformed ids of length 0/15/17/1000 on every RPC that takes one, unknown datasets and partitions, degenerate create parameters, empty and wrong-dimension vectors incl. the unvalidated PartitionBatch* path, NaN/Inf/subnormal/huge/zero coordinates under each metric, k = 0 / 2^20 / 2^32-1, over-long metadata, batches of 0/100/101/10000 items, duplicate and mixed batches) gets a freshly started real server with valid data; after the request the process must be alive, answer List and serve a valid insert+search, and after SIGKILL + restart it must replay its log, answer and serve again.",
+    "level_text": "Every request class (malformed ids of length 0/15/17/1000 on every RPC that takes one, unknown datasets and partitions, degenerate create parameters, empty and wrong-dimension vectors incl. the unvalidated PartitionBatch* path, NaN/Inf/subnormal/huge/zero coordinates under each metric, k = 0 / 2^20 / 2^32-1, over-long metadata, batches of 0/100/101/10000 items, duplicate and mixed batches) gets a freshly started real server with valid data; after the request the process must be alive, answer List and serve a valid insert+search, and after SIGKILL + restart it must replay its log, answer and serve again. Also: seven values of the batch item's level field through every batch RPC, and ordinary numbers at the edge of each metric (parallel, nearly parallel, opposite and coincident vectors).",
     "level_note": "Well-typed protobuf requests only; single-node servers (a poisoned entry kills every replica the same way); both tiers run every class; server address space is capped at 25 GB so a runaway allocation ends the server.",
     "shards": {"quick": 8, "thorough": 16},
     "timeout": {"quick": 900, "thorough": 3400},
